@@ -30,6 +30,7 @@ RULE = (
 )
 RULE += (" " + 'File paths have equal and different leaf directory names under different ancestors, nested and relative forms.')
 RULE += (" One document in five is a correlation rule drawing title, id and path from the same pools.")
+RULE += (" One id in six is malformed (not a UUID): such a document is loaded with error collection, which keeps the text as the rule id, and takes part in the identifier groups under that text.")
 RULE += (" Glob sweep: every selector pattern over {a, b, _, *} up to length 4 (thorough: 6) against a rule defining every name over {a, b, _} up to length 4 (5): unused-detection and dangling-selector issues must agree with glob matching.")
 RULE += (" The validator object is used for a second run over the same rules: same issues again, and the issues of the first run unchanged.")
 ASSUMPTIONS = [
@@ -48,6 +49,20 @@ def _norm_issue(issue, key_of):
     return (type(issue).__name__, tuple(sorted(key_of[id(r)] for r in issue.rules)), extra)
 
 
+BAD_IDS = ["not-a-uuid", "abc", "12345"]
+
+
+def _malformed_id(v) -> bool:
+    from uuid import UUID
+    if not isinstance(v, str):
+        return False
+    try:
+        UUID(v)
+        return False
+    except ValueError:
+        return True
+
+
 def _load(docs):
     from sigma.exceptions import SigmaRuleLocation
     from sigma.correlations import SigmaCorrelationRule
@@ -57,6 +72,10 @@ def _load(docs):
         doc = copy.deepcopy(d)
         path = doc.pop("_path", None)
         cls = SigmaCorrelationRule if "correlation" in doc else SigmaRule
+        if _malformed_id(doc.get("id")):
+            # a malformed id is only accepted by the error-collecting load, which keeps the text as the rule's id
+            rules.append(cls.from_dict(doc, collect_errors=True, source=SigmaRuleLocation(path) if path else None))
+            continue
         rules.append(cls.from_dict(doc, source=SigmaRuleLocation(path) if path else None))
     return rules
 
@@ -112,7 +131,7 @@ def expected_reference_issues(docs, exclusions):
                 exp[("DanglingConditionIssue", (i,), (("condition_name", repr(p)),))] += 1
     # uniqueness groups
     from uuid import UUID
-    groups = {"identifier_uniqueness": ("IdentifierCollisionIssue", "identifier", lambda d: d.get("id"), lambda v: repr(UUID(v))),
+    groups = {"identifier_uniqueness": ("IdentifierCollisionIssue", "identifier", lambda d: d.get("id"), lambda v: repr(v) if _malformed_id(v) else repr(UUID(v))),
               "duplicate_title": ("DuplicateTitleIssue", "title", lambda d: d.get("title"), repr)}
     for vname, (iname, fname, getter, fmt) in groups.items():
         buckets = {}
@@ -210,6 +229,8 @@ def check_case(case: dict) -> Outcome:
         out.label("duplicate-group>=3")
     if excl:
         out.label("exclusions")
+    if any(_malformed_id(d.get("id")) for d in docs):
+        out.label("malformed-id-kept-as-text")
     try:
         # purity
         rules0 = _load(docs)
@@ -283,6 +304,8 @@ def cases(draw):
              "detection": det}
         if draw(st.integers(0, 4)):
             d["id"] = draw(st.sampled_from(UUIDS[:3] + [UUIDS[3 + i]]))
+            if draw(st.integers(0, 5)) == 0:   # malformed id, kept as text by the error-collecting load
+                d["id"] = draw(st.sampled_from(BAD_IDS))
         if draw(st.booleans()):
             d["_path"] = draw(st.sampled_from(["/r/a/rule_one_long_name.yml", "/r/b/rule_one_long_name.yml", "/r/c/rule_one_long_name.yml", "/q/a/rule_one_long_name.yml", "/q/z/a/rule_one_long_name.yml", "a/rule_one_long_name.yml", "/rule_one_long_name.yml", "/q/a/x.yml", f"/r/a/unique_rule_name_{i}.yml", "/r/a/x.yml"]))
         if draw(st.booleans()):
@@ -295,7 +318,7 @@ def cases(draw):
     core = ["dangling_detection", "dangling_condition", "identifier_uniqueness", "duplicate_title", "duplicate_filename"]
     vn = draw(st.lists(st.sampled_from(core + core + all_names), min_size=k, max_size=k, unique=True))
     excl = {}
-    ids = [d["id"] for d in docs if "id" in d]
+    ids = [d["id"] for d in docs if "id" in d and not _malformed_id(d["id"])]
     if ids and draw(st.integers(0, 2)) == 0:
         excl[draw(st.sampled_from(ids))] = draw(st.lists(st.sampled_from(vn), min_size=1, max_size=2, unique=True))
     return {"docs": docs, "validators": vn, "exclusions": excl, "rule_order": list(draw(st.permutations(list(range(n))))),
